@@ -150,12 +150,11 @@ let name_of_string s : name = List.init (S.length s) (fun i -> ZA.of_int (Char.c
 let string_of_name (n : name) = S.init (List.length n) (fun i -> Char.chr (ZA.to_int (List.nth n i)))
 let split_list s = if s = "-" then [] else S.split_on_char ',' s
 
-(* GT text -> decoded field, as noodles decodes it: "." alone is the missing field *)
+(* GT text -> decoded field: the model's own reader of a VCF sample's GT value (Container.vcf_field_gt) *)
 let gt_of_string s : vcf_gt =
-  if s = "." then None
-  else
-    let parts = S.split_on_char '/' (S.concat "/" (S.split_on_char '|' s)) in
-    Some (List.map (fun a -> if a = "." then None else Some (ZA.of_string a)) parts)
+  match vcf_field_gt (name_of_string s) with
+  | Some g -> g
+  | None -> failwith ("GT syntax: " ^ s)
 
 let fmt_gres = function
   | GCalled g -> "called " ^ zs g | GMissing -> "missing" | GMultiallelic -> "multiallelic" | GPloidyErr -> "ploidy"
@@ -184,6 +183,22 @@ let fmt_build_err = function
 let run_create toks =
   match toks with
   | ["classify"; gt] -> add (fmt_gres (classify (gt_of_string gt)))
+  (* genosm vcf|bcf FIELDS;FIELDS;... : FIELDS = comma separated hex of each sample's GT value (text / int8 vector) *)
+  | ["genosm"; kind; recs] ->
+    add "OK";
+    (try
+       if recs <> "-" then
+         List.iter (fun r ->
+             let fields = if r = "" then [] else S.split_on_char ',' r in
+             let cls = List.map (fun h ->
+                 let b = bytes_of_hex h in
+                 match (if kind = "vcf" then vcf_field_gt b else bcf_field_gt b) with
+                 | None -> add " E"; raise Exit
+                 | Some g -> (match classify g with
+                     | GCalled g -> "called" ^ zs g | GMissing -> "missing" | GMultiallelic -> "multiallelic" | GPloidyErr -> "ploidy")) fields in
+             add (" " ^ (if cls = [] then "-" else S.concat "," cls))) (S.split_on_char ';' recs);
+       add " D"
+     with Exit -> ())
   | ["smapfile"; hex] ->
     let m = build_map (parse_samples_file (bytes_of_hex hex)) in
     add ("OK " ^ (if m = [] then "-" else S.concat "," (List.map (fun (n, id) -> hex_of_bytes n ^ ":" ^ zs id) m)))
@@ -279,7 +294,7 @@ let run_case line =
      | "get" | "getaxis" | "view" | "axisiter" | "indices" | "sum" -> run_array toks
      | "fold" | "marg" | "keep" | "project" | "pmf" | "binom" -> run_spectrum toks
      | "npyw" | "npyr" | "textw" | "read" | "fmt" | "parse" | "detect" -> run_bytes toks
-     | "classify" | "sites" | "create" | "smapfile" -> run_create toks
+     | "classify" | "sites" | "create" | "smapfile" | "genosm" -> run_create toks
      | "stat" | "viewrun" -> run_stat toks
      | "cnpy" | "cwrite" -> run_stream toks
      | _ -> add ("UNKNOWN-OP " ^ op))
